@@ -84,6 +84,25 @@ theorem C12_header_exact (a : HdrArgs) (hid : ∀ c ∈ a.id, xmlChar c = true)
     by_cases h4 : a.lang = [] <;>
     simp [h1, h2, h3, h4]
 
+/-- **What does not round-trip.**  Raw text between the quotes of an attribute value (any
+XML characters except the quote, `&` and `<`) is read with its line ends normalised —
+`\r\n` and `\r` become `\n` — and with nothing else changed; so raw text comes back
+unchanged exactly if it contains no carriage return.  (Tabs and line feeds are *not* turned
+into spaces by `encoding/xml`.)  The printer never relies on this: `xml.EscapeText` writes
+`\t`, `\n`, `\r` as character references, which `C12_header_roundtrip` shows come back as
+themselves. -/
+theorem C12_attr_value_line_ends (q : Char) (v acc rest : Str)
+    (hv : ∀ c ∈ v, c ≠ q ∧ c ≠ '&' ∧ c ≠ '<' ∧ xmlChar c = true) :
+    readValue q (v ++ q :: rest) ⟨acc, none, false⟩ = some (acc ++ normCR false v, rest) ∧
+    (normCR false v = v ↔ '\r' ∉ v) := by
+  refine ⟨readValue_raw q v hv false acc rest, ?_, normCR_id v⟩
+  intro h hr
+  have := normCR_no_cr v false
+  rw [h] at this
+  exact this hr
+
+example : normCR false "a\r\nb\rc\n\td".toList = "a\nb\nc\n\td".toList := by decide
+
 -- the model's printer produces the bytes of the Go format strings
 set_option maxRecDepth 8000 in
 example : printHeader ⟨false, false, [], "a".toList, "b'c".toList, []⟩ =
